@@ -799,6 +799,14 @@ impl Session {
         let mut handed: Vec<Value> = handed_toks.iter().map(|t| self.resolve(c, *t, argk, argv)).collect();
         handed.sort_by_key(|v| v.to_string());
 
+        // ---- where did every object of cache c (and the arguments) end up?
+        let mut before: Vec<u64> = self.prev.get(&c).map(|m| m.keys().cloned().collect()).unwrap_or_default();
+        for t in [argk, argv] {
+            if t != 0 { before.push(t); }
+        }
+        let window_set: HashSet<u64> = window.iter().cloned().collect();
+        let handed_set: HashSet<u64> = handed_toks.iter().cloned().collect();
+
         // ---- project
         let mut ev = json!({
             "i": self.step,
@@ -874,6 +882,22 @@ impl Session {
             self.prev_fp.remove(&c);
         }
 
+        // objects stored now in c (or in the clone target d)
+        let mut stored: HashSet<u64> = HashSet::new();
+        for id in [c, d] {
+            if let Some(m) = new_prev.get(&id) {
+                for t in m.keys() { stored.insert(*t); }
+            }
+        }
+        let mut dup = 0;
+        let mut missing = 0;
+        for t in before.iter() {
+            let places = stored.contains(t) as u32 + window_set.contains(t) as u32
+                + handed_set.contains(t) as u32;
+            if places == 0 { missing += 1; }
+            if places > 1 { dup += 1; }
+        }
+        ev["cons"] = json!({"dup": dup, "missing": missing});
         ev["others"] = json!(others);
         let mut anomalies = reg_anomalies_take();
         anomalies.sort();
